@@ -152,6 +152,41 @@ class StorageBackend(ABC):
         raise NotImplementedError("This backend does not support CAS writes")
 
 
+class DirectoryNotPersistedError(OSError):
+    """The file was written, flushed and renamed into place, but the fsync of its
+    directory FAILED (EIO / ENOSPC / EDQUOT): the new name may not survive a
+    power loss. Raised after the rename - the file is visible. Callers writing a
+    not yet referenced file treat it as a failed write; the version-hint write
+    treats it as an ambiguous commit."""
+
+
+def fsync_directory(dir_path: str) -> None:
+    """fsync a directory so that a rename inside it is persisted.
+
+    Filesystems / OSes that cannot fsync a directory (EINVAL, ENOTSUP, EBADF,
+    EACCES on open, no os.O_RDONLY directory opens on Windows) are tolerated as
+    before. A genuine I/O failure is NOT: swallowing EIO let a commit flip the
+    version hint over files whose directory entries were never persisted.
+    """
+    import errno
+
+    try:
+        dir_fd = os.open(dir_path, os.O_RDONLY)
+    except (OSError, AttributeError):
+        return
+    try:
+        os.fsync(dir_fd)
+    except OSError as e:
+        if e.errno in (errno.EIO, errno.ENOSPC, errno.EDQUOT):
+            raise DirectoryNotPersistedError(
+                e.errno, f"fsync of directory {dir_path} failed: {e.strerror or e}"
+            ) from e
+    except AttributeError:
+        pass
+    finally:
+        os.close(dir_fd)
+
+
 class CASConflictError(Exception):
     """Raised when a compare-and-swap write loses the race (precondition failed)."""
 
@@ -296,17 +331,10 @@ class LocalStorageBackend(StorageBackend):
 
             # Sync directory to ensure rename is persisted
             # This is critical for crash recovery
-            try:
-                dir_fd = os.open(dir_path, os.O_RDONLY)
-                try:
-                    os.fsync(dir_fd)
-                finally:
-                    os.close(dir_fd)
-            except (OSError, AttributeError):
-                # Some filesystems/OSes don't support directory fsync
-                # This is acceptable - the file fsync is the critical part
-                pass
+            fsync_directory(dir_path)
 
+        except DirectoryNotPersistedError:
+            raise  # the rename happened: there is no temp file to clean up
         except Exception:
             # Clean up temp file on any error
             try:
@@ -322,7 +350,8 @@ class LocalStorageBackend(StorageBackend):
     @property
     def atomic_write_failures(self) -> bool:
         """Local writes go through temp file + os.replace: an exception means the
-        rename never happened, so a failed write is guaranteed not visible."""
+        rename never happened, so a failed write is guaranteed not visible - with
+        the one exception of DirectoryNotPersistedError, raised after it."""
         return True
 
     def read_json(self, path: str) -> Dict[str, Any]:
